@@ -114,13 +114,15 @@ def resVal : Res Val → String
 
 /-- values inside the scope of the oracle: strings and open types of any length (fragmented per X.691 11.9.3.8 from 16K
     items on); a SEQUENCE OF of 16384 elements or more is outside (the specification does not fragment counts); a Go BitString
-    whose `Bytes` does not have ⌈BitLength/8⌉ octets is not a BIT STRING value at all (C03 speaks of values outside their
-    CONSTRAINTS; what the library does with an inconsistent representation — it traps — is compared with the model only) -/
+    whose `Bytes` has FEWER than ⌈BitLength/8⌉ octets is not a BIT STRING value at all (C03 speaks of values outside their
+    CONSTRAINTS; what the library does with an inconsistent representation — it traps — is compared with the model only).
+    MORE octets than needed is how a caller passes a buffer (a 4-octet gnb_id with a bit length of 24): the value is the first
+    BitLength bits -/
 partial def inScope : Val → Bool
   | .ptr v => inScope v
   | .struct fs => fs.all inScope
   | .slice l => l.length < 16384 && l.all inScope
-  | .bits b n => b.length == (n + 7) / 8
+  | .bits b n => b.length ≥ (n + 7) / 8
   | _ => true
 
 /-- the schema the oracle encodes under: the frozen TS 38.413 table (Spec/Ts38413Schema.lean), with the constraints of the
@@ -173,9 +175,17 @@ partial def toSpecVal (ty : Ty) (v : Val) : Val :=
         else keep
   | _, _ => v
 
+/-- the BIT STRING a Go `BitString` denotes: its first `BitLength` bits (a caller's buffer may be longer than the string) -/
+partial def trimBits : Val → Val
+  | .ptr v => .ptr (trimBits v)
+  | .struct fs => .struct (fs.map trimBits)
+  | .slice l => .slice (l.map trimBits)
+  | .bits b n => .bits (b.take ((n + 7) / 8)) n
+  | v => v
+
 /-- spec column for an encode op: the X.691 encoding, `err` when the value is outside its constraints -/
 def specEnc (id : Nat) (p : Params) (v0 : Val) : String :=
-  let v := toSpecVal (.struct id) v0
+  let v := trimBits (toSpecVal (.struct id) v0)
   if !inScope v then "undef" else
   match Spec.X691.encodePdu specSchema specFuel (.struct (specTypeId id)) p v with
   | some b => "ok " ++ toHex b
